@@ -90,8 +90,14 @@ def run_check(prop, tier, seed):
 
     # ---- 1. proof step
     proof = {'obligations': 0, 'discharged': 0, 'theorems': [], 'errors': [], 'checker_cmd': '', 'files': []}
-    if not any(b['kind'] == 'broken_translator' for b in broken):
+    translator_broken = any(b['kind'] == 'broken_translator' for b in broken)
+    # when the translator fails closed, only the property files that do not depend on generated code are checked
+    # (PROPERTY_FILES_NO_GEN); the generated-code obligations are already reported as broken
+    if translator_broken:
+        pfiles = list(getattr(mod, 'PROPERTY_FILES_NO_GEN', []))
+    else:
         pfiles = getattr(mod, 'PROPERTY_FILES', None) or [mod.PROPERTY_FILE]
+    if pfiles:
         for pf in pfiles:
             try:
                 aa = getattr(mod, 'ALLOWED_AXIOMS', ())
